@@ -20,7 +20,7 @@ import QV.Driver.Snapshot
 namespace QV.Driver
 
 def handlers : List Handler :=
-  [wireHandler, codesHandler, nameHandler, rdataHandler, catalogHandler, zoneHandler, rrlHandler, readerHandler, tsigHandler, writerHandler, serverHandler, zonefileHandler, includeHandler, poolHandler, framingHandler, reloadHandler, snapshotHandler]
+  [wireHandler, codesHandler, nameHandler, rdataHandler, catalogHandler, zoneHandler, rrlHandler, readerHandler, tsigHandler, writerHandler, serverHandler, srvHandler, zonefileHandler, includeHandler, poolHandler, framingHandler, reloadHandler, snapshotHandler]
 
 def dispatch (line : String) : String :=
   match line.trimAscii.toString.splitOn " " with
